@@ -38,9 +38,22 @@ def run(ctx, replay=None):
         raise Infra("no distributor cases")
     path = ctx.write_ndjson("dcases.ndjson", dcases)
     ctx.go_test("vt/c17", run="TestDistributor$", env={"VERIF_CASES": path}, toolchain="go1.26", timeout=3000, name="dist")
-    # 3. GetSCTs scenarios under virtual time, with H4 traces
-    out, outdir, _ = ctx.go_test("vt/c17", run="TestGetSCTs$", toolchain="go1.26", race=True, timeout=6000, name="getscts",
-                                 env={"VERIF_CASES_PER_POLICY": ctx.pick(400, 4000), "VERIF_REPEAT": ctx.pick(2, 4)})
+    # 3. GetSCTs scenarios under virtual time, with H4 traces (several processes in the thorough tier: each draws
+    #    another sample of the latency assignments, and a toolchain crash costs one chunk only)
+    #    The race detector is applied to a smaller sample in a separate process: under -race the go1.26.8 runtime
+    #    occasionally crashes inside synctest's timer code (see vlib.go_test), without it never (0 of 12 vs 2 of 12 runs).
+    for chunk in range(ctx.pick(1, 8)):
+        out, outdir, _ = ctx.go_test("vt/c17", run="TestGetSCTs$", toolchain="go1.26", race=False, timeout=6000,
+                                     name="getscts%d" % chunk,
+                                     env={"VERIF_CASES_PER_POLICY": ctx.pick(400, 600), "VERIF_REPEAT": 2, "VERIF_SALT": chunk})
+        validate(ctx, outdir)
+    ctx.go_test("vt/c17", run="TestGetSCTs$", toolchain="go1.26", race=True, timeout=6000, name="getscts-race",
+                env={"VERIF_CASES_PER_POLICY": 80, "VERIF_REPEAT": 1, "VERIF_SALT": 99})
+    # 4. data races
+    ctx.go_test("vt/c17", run="TestRaces$", toolchain="go1.26", race=True, timeout=3000, name="races")
+
+
+def validate(ctx, outdir):
     for pol in POLICIES:
         tr = os.path.join(outdir, "traces-%s.ndjson" % pol)
         if not os.path.exists(tr) or os.path.getsize(tr) == 0:
@@ -65,5 +78,3 @@ def run(ctx, replay=None):
                           {"stuck": stuck, "violated": r.violated, "trace_window": lines[lo - 1:at + 1]})
         else:
             ctx.traces += n
-    # 4. data races
-    ctx.go_test("vt/c17", run="TestRaces$", toolchain="go1.26", race=True, timeout=3000, name="races")
